@@ -633,8 +633,8 @@ func genCtxLookup(c *Ctx, n int, gpos bool) *gtab.LookupTable {
 // A Parse that does not terminate cannot be stopped from inside the process, and it may allocate
 // without bound (a range loop that wraps around appends glyph ids for ever: 256 MiB in 1.5 s).
 // So these ops are executed by a child process (this binary, started with VERIF_DSL_WORKER=1),
-// one case per line over a pipe.  The child watches itself: when its heap passes 384 MiB or a
-// case runs longer than 3 s it exits, and the parent reports the outcome "runaway" for that case
+// one case per line over a pipe.  The child watches itself: when its heap passes 96 MiB or a
+// case runs longer than 2 s it exits, and the parent reports the outcome "runaway" for that case
 // and starts a new child.
 
 var dslWorkerOps = []string{"dsl.parse", "dsl.total", "dsl.roundtrip", "dsl.modelrt", "dsl.rtseed", "dsl.goroutines", "dsl.flags"}
@@ -756,7 +756,7 @@ func dslWorkerMain() {
 			time.Sleep(20 * time.Millisecond)
 			runtime.ReadMemStats(&ms)
 			st := started.Load()
-			if ms.HeapAlloc > 384<<20 || (st != 0 && time.Now().UnixNano()-st > int64(3*time.Second)) {
+			if ms.HeapAlloc > 96<<20 || (st != 0 && time.Now().UnixNano()-st > int64(2*time.Second)) {
 				os.Exit(3)
 			}
 		}
